@@ -26,6 +26,7 @@ type Payload struct {
 	Raw   world.Bin `json:"raw,omitempty"`
 	Nest  int       `json:"nest,omitempty"`  // Nest x Unit (default "*1\r\n") followed by Raw
 	Unit  string    `json:"unit,omitempty"`  // one nesting level, e.g. "*2\r\n*-1\r\n": a null array, then the next level
+	Blank int       `json:"blank,omitempty"` // Blank x "\r\n" (empty inline lines) first
 	Pre   int       `json:"pre,omitempty"`   // Pre x "*-1\r\n" (complete null-array frames) before everything else
 	Fill  int       `json:"fill,omitempty"`  // Fill x 'a' appended after Raw (long inline lines / big bulk bodies)
 	Tail  world.Bin `json:"tail,omitempty"`  // appended last
@@ -35,6 +36,9 @@ type Payload struct {
 
 func (p Payload) Bytes() []byte {
 	var b bytes.Buffer
+	for i := 0; i < p.Blank; i++ {
+		b.WriteString("\r\n")
+	}
 	for i := 0; i < p.Pre; i++ {
 		b.WriteString("*-1\r\n")
 	}
@@ -108,6 +112,12 @@ func genNestShape(r *simhook.Rand, p *Payload, client bool) {
 
 func genClientAdversary(r *simhook.Rand) Payload {
 	var p Payload
+	if r.Chance(1, 14) {
+		// very many empty lines ahead of a request (a decoder that skips them must do so in constant stack)
+		p.Blank = []int{1, 2, 1000, 300000, 2000000}[r.Intn(5)]
+		p.Raw = world.Bin(resp2.CmdS("PING"))
+		return p
+	}
 	switch r.Intn(12) {
 	case 0: // deep nesting
 		p.Nest = []int{2, 9, 33, 100, 1000, 10000, 100000, 1000000}[r.Intn(8)]
